@@ -4,13 +4,13 @@ CONSTANTS
   FunRels = {"actionnext", "beads", "xrefprev", "xrefstmprev", "xrefstm", "extends", "length", "refchain", "refcontents", "refkids", "refannots", "pageparent", "fieldparent", "colorspace", "function", "smask", "irt"}
   MaxN = 4
   SymN = 3
-  GraphMod = 16
+  GraphMod = 128
   Decors = {"none", "dangling", "wrong", "null", "direct"}
-  DecorMod = 4
-  FunMod = 4
+  DecorMod = 8
+  FunMod = 16
   OutlineNs = {1, 2}
   Outline1Mod = 1
-  OutlineMod = 4
+  OutlineMod = 16
   DepthRels = {"pagetree", "fields", "structtree", "nametree", "numtree", "xobjects", "actionnext", "beads", "xrefprev", "extends", "length", "refchain", "pageparent", "fieldparent", "colorspace", "function", "smask", "irt", "outlinefirst", "outlinenext"}
   SynKinds = {"array", "dict", "mixed", "parens", "contentarray", "contentq", "contentdict"}
   Limit = 100
@@ -21,7 +21,7 @@ CONSTANTS
   MutK = 60
   PdfBases = {"classic", "objstm", "encrypted", "signed", "form"}
   PdfK = 2
-  PdfMod = 2
+  PdfMod = 6
   TruncK = 40
   Seed = 1
   Emit = TRUE
